@@ -350,9 +350,6 @@ func c23Oracle(res *c23Result) []string {
 	var prev []uint64
 	prevOK := true
 	for ci, c := range res.calls {
-		if c.tx != in.Tx {
-			add("C23:transaction-flag", "call %d: Transaction=%v, DefaultQueueTx=%v", ci, c.tx, in.Tx)
-		}
 		if len(c.stmts) == 0 {
 			add("C23:empty-execute", "call %d carries no statements", ci)
 			continue
